@@ -66,7 +66,7 @@ func (p *eProg) String() string {
 func (p *eProg) nbVals() int {
 	n := 0
 	for _, o := range p.Ops {
-		if o.Kind != "IsZero" {
+		if o.Kind != "IsZero" && o.Kind != "AssertInRange" && o.Kind != "BitsC" {
 			n++
 		}
 	}
@@ -78,6 +78,9 @@ func (p *eProg) nbExpBits() int {
 		if o.Kind == "IsZero" {
 			n++
 		}
+		if o.Kind == "BitsC" {
+			n += o.K.BitLen() // K = the modulus: one expected bit per modulus bit
+		}
 	}
 	return n
 }
@@ -85,6 +88,7 @@ func (p *eProg) nbExpBits() int {
 // documented meaning, over the integers modulo q; ok=false when the program is not satisfiable
 func evalEProg(p *eProg, q *big.Int, in []*big.Int, bits []int) (vals []*big.Int, expBits []int, ok bool) {
 	mod := func(x *big.Int) *big.Int { return x.Mod(x, q) }
+	raw := in
 	for _, x := range in {
 		vals = append(vals, mod(new(big.Int).Set(x)))
 	}
@@ -134,6 +138,16 @@ func evalEProg(p *eProg, q *big.Int, in []*big.Int, bits []int) (vals []*big.Int
 				r.Add(r, a(i))
 			}
 			mod(r)
+		case "AssertInRange": // only on program inputs: the representation given must be canonical
+			if o.Args[0] >= len(raw) || raw[o.Args[0]].Cmp(q) >= 0 {
+				return vals, expBits, false
+			}
+			continue
+		case "BitsC": // ToBitsCanonical: the bits of the canonical representative
+			for i := 0; i < q.BitLen(); i++ {
+				expBits = append(expBits, int(a(0).Bit(i)))
+			}
+			continue
 		case "IsZero":
 			if a(0).Sign() == 0 {
 				expBits = append(expBits, 1)
@@ -212,6 +226,7 @@ type eRec struct {
 	caps     []eCapture
 	resVals  [][]*big.Int // limbs of every result (engine)
 	resOvf   []uint
+	kinds    []string
 	problems []string
 }
 
@@ -346,10 +361,20 @@ func (c *emuChainCircuit[T]) Define(api frontend.API) error {
 			api.AssertIsEqual(f.IsZero(a(0)), c.ExpBits[nb])
 			nb++
 			continue
+		case "AssertInRange":
+			f.AssertIsInRange(a(0))
+			continue
+		case "BitsC":
+			for _, b := range f.ToBitsCanonical(a(0)) {
+				api.AssertIsEqual(b, c.ExpBits[nb])
+				nb++
+			}
+			continue
 		default:
 			panic("Define: " + o.Kind)
 		}
 		if c.rec != nil {
+			c.rec.kinds = append(c.rec.kinds, o.Kind)
 			if lv, ok := limbVals(r); ok {
 				c.rec.resVals = append(c.rec.resVals, lv)
 				c.rec.resOvf = append(c.rec.resOvf, emulated.VerifOverflow(r))
@@ -677,6 +702,11 @@ func runC12(args []string) int {
 						d.Detail = fmt.Sprintf("value #%d", i)
 						rep.Fail("c12:value-incongruent:"+opKindsOf(p), "a result recomposed from its limbs is not congruent to the integer result", d)
 					}
+					if i < len(rec.kinds) && rec.kinds[i] == "ReduceStrict" && v.Cmp(ru.q) >= 0 {
+						d := desc
+						d.Detail = fmt.Sprintf("value #%d", i)
+						rep.Fail("c12:reducestrict-not-canonical", "the result of ReduceStrict recomposed from its limbs is not below the modulus", d)
+					}
 					lim := new(big.Int).Lsh(big.NewInt(1), ru.w+rec.resOvf[i])
 					for _, l := range lv {
 						if l.Cmp(lim) >= 0 {
@@ -771,6 +801,95 @@ func runC12(args []string) int {
 			}
 		}
 		_ = ri
+	}
+	// ---- B2: canonical representatives: AssertIsInRange and ToBitsCanonical on canonical / non-canonical inputs
+	for _, ru := range runners {
+		if ru.nl >= 12 && !o.Thorough() {
+			continue
+		}
+		full := new(big.Int).Lsh(big.NewInt(1), uint(ru.q.BitLen()))
+		cands := map[string]*big.Int{"0": big.NewInt(0), "q-1": new(big.Int).Sub(ru.q, big.NewInt(1)), "q": new(big.Int).Set(ru.q),
+			"q+1": new(big.Int).Add(ru.q, big.NewInt(1)), "max": new(big.Int).Sub(full, big.NewInt(1)), "random": rng.Big(ru.q)}
+		for _, name := range sortedKeysB(map[string]bool{"0": true, "q-1": true, "q": true, "q+1": true, "max": true, "random": true}) {
+			x := cands[name]
+			if x.Cmp(full) >= 0 {
+				continue
+			}
+			p := &eProg{NIn: 1, NBits: 2, Ops: []eOp{{Kind: "AssertInRange", Args: []int{0}}}}
+			_, _, want := evalEProg(p, ru.q, []*big.Int{x}, []int{0, 0})
+			for _, mode := range []string{"engine", "r1cs", "scs"} {
+				cls, msg, _, _ := ru.run(p, []*big.Int{x}, []int{0, 0}, nil, nil, mode)
+				rep.Eval(fmt.Sprintf("inrange|%s|%s|%s", ru.name, mode, name), true)
+				rep.Count("inrange:" + name + ":" + cls)
+				d := c12Desc{Field: ru.name, Mode: mode, Prog: p, In: []*big.Int{x}, Detail: name + " " + msg}
+				if want && cls != "ok" {
+					rep.Fail("c12:inrange-rejects-canonical:"+mode, "AssertIsInRange rejects a value below the modulus: "+msg, d)
+				}
+				if !want && cls == "ok" {
+					rep.Fail("c12:inrange-accepts:"+name+":"+mode, "AssertIsInRange accepts a representation that is not below the modulus", d)
+				}
+			}
+			// ToBitsCanonical of the same representation: only the bits of the canonical representative are accepted
+			pb := &eProg{NIn: 1, NBits: 2, Ops: []eOp{{Kind: "BitsC", Args: []int{0}, K: ru.q}}}
+			_, canon, _ := evalEProg(pb, ru.q, []*big.Int{x}, []int{0, 0})
+			rawBits := make([]int, ru.q.BitLen())
+			for i := range rawBits {
+				rawBits[i] = int(x.Bit(i))
+			}
+			for _, mode := range []string{"engine", "r1cs"} {
+				cls, msg, _, _ := ru.run(pb, []*big.Int{x}, []int{0, 0}, nil, canon, mode)
+				rep.Eval(fmt.Sprintf("bitsc|%s|%s|%s", ru.name, mode, name), true)
+				d := c12Desc{Field: ru.name, Mode: mode, Prog: pb, In: []*big.Int{x}, Detail: name + " " + msg}
+				if cls != "ok" {
+					rep.Fail("c12:bitscanonical-rejects:"+mode, "ToBitsCanonical does not produce the bits of the canonical representative: "+msg, d)
+				}
+				if x.Cmp(ru.q) >= 0 {
+					cls, _, _, _ = ru.run(pb, []*big.Int{x}, []int{0, 0}, nil, rawBits, mode)
+					rep.Eval(fmt.Sprintf("bitsc-raw|%s|%s|%s", ru.name, mode, name), true)
+					if cls == "ok" {
+						rep.Fail("c12:bitscanonical-accepts-noncanonical:"+mode, "ToBitsCanonical accepts the bits of a non-canonical representative", d)
+					}
+				}
+			}
+		}
+		// dishonest prover: x = q, the reduction hint answers (quotient 0, remainder q) instead of (1, 0); claimed bits = bits(q)
+		if ru.q.Cmp(full) < 0 && mulFn != nil {
+			pb := &eProg{NIn: 1, NBits: 2, Ops: []eOp{{Kind: "BitsC", Args: []int{0}, K: ru.q}}}
+			qbits := make([]int, ru.q.BitLen())
+			for i := range qbits {
+				qbits[i] = int(ru.q.Bit(i))
+			}
+			forged := func(field *big.Int, in, out []*big.Int) error {
+				if err := mulFn(field, in, out); err != nil {
+					return err
+				}
+				nbBits := uint(in[0].Int64())
+				nbLimbs := int(in[1].Int64())
+				quoLen := int(in[3].Int64())
+				quo := out[:quoLen]
+				rem := out[quoLen : quoLen+nbLimbs]
+				if recompLimbs(quo, nbBits).Cmp(big.NewInt(1)) == 0 && recompLimbs(rem, nbBits).Sign() == 0 {
+					for i := range quo {
+						quo[i].SetInt64(0)
+					}
+					for i, l := range decompLimbs(ru.q, nbBits, len(rem)) {
+						rem[i].Set(l)
+					}
+					for _, c := range out[quoLen+nbLimbs:] { // the integer identity still holds: carries of x*1 - q are those of 0
+						_ = c
+					}
+				}
+				return nil
+			}
+			for _, mode := range []string{"r1cs", "scs"} {
+				cls, msg, _, _ := ru.run(pb, []*big.Int{ru.q}, []int{0, 0}, nil, qbits, mode, solver.OverrideHint(mulID, forged))
+				rep.Eval(fmt.Sprintf("bitsc-forge|%s|%s", ru.name, mode), true)
+				rep.Count("bitsc-forge:" + cls)
+				if cls == "ok" {
+					rep.Fail("c12:forged-accepted:bitscanonical:"+mode, "with a forged reduction (remainder = q) ToBitsCanonical yields the bits of q", c12Desc{Field: ru.name, Mode: mode, Prog: pb, In: []*big.Int{ru.q}, Detail: msg})
+				}
+			}
+		}
 	}
 	// ---- C: adversarial hints on a.b = r (first multiplication forged)
 	// forge(field, K, R) proposes another quotient / remainder; the carries are then recomputed modulo the
